@@ -730,8 +730,14 @@ class RecipeRun:
                 continue
             diff = self.tolerant_diff(a, e)
             if diff:
-                self.V('C08', 'bake_differs', ('bake', self.last_step_kind_touching(n)),
+                kind = self.last_step_kind_touching(n)
+                self.V('C08', 'bake_differs', ('bake', kind),
                        f"{n}: bake result differs from the eager reference: {diff}", kid)
+                if isinstance(a, rep.Plate):
+                    # C07: a plate operation as a recipe step must give each well what the direct operation gives
+                    self.V('C07', 'recipe_step_differs', ('bake', kind),
+                           f"{n}: as recipe steps the plate operations gave a different plate than the direct operations: {diff}",
+                           kid or self.first_excuse(('C07',)))
         self.stats['probe:bake_compared'] += 1
 
     def last_step_kind_touching(self, name):
